@@ -23,16 +23,16 @@ def S(codes):
 
 
 def new_arg(kind):
-    init = {"flag": False, "int": 0, "dbl": 0, "str": [], "optint": [], "arr3": [0, 0, 0], "sarr3": [0, 0, 0], "tup": [0, [], 0],
+    init = {"flag": False, "int": 0, "dbl": 0, "level": 0, "str": [], "optint": [], "arr3": [0, 0, 0], "sarr3": [0, 0, 0], "tup": [0, [], 0],
             "bits8": [False] * 8}.get(kind, [])
-    return {"s": 0, "l": [], "pos": False, "kind": kind, "vm": "none" if kind == "flag" else "req", "mand": False,
+    return {"s": 0, "l": [], "pos": False, "kind": kind, "vm": "none" if kind == "flag" else "opt" if kind == "level" else "req", "mand": False,
             "card": {"t": "dflt", "a": 0, "b": 0}, "checks": [], "formats": [], "sep": 44, "clear": False, "sort": False,
             "uniq": "no", "multi": False, "req": [], "exc": [], "init": init, "depr": False, "unset": False,
-            "cspell": 0, "grp": 0, "hidden": False, "dashes": False}
+            "cspell": 0, "grp": 0, "hidden": False, "dashes": False, "mix": False}
 
 
 def is_int_kind(k):
-    return k in ("int", "optint", "vecint", "setint", "listint", "dequeint", "arr3", "sarr3", "fwdint", "msetint", "stackint",
+    return k in ("int", "optint", "level", "vecint", "setint", "listint", "dequeint", "arr3", "sarr3", "fwdint", "msetint", "stackint",
                  "queueint", "pqint", "bits8")
 
 
@@ -53,7 +53,7 @@ class Gen:
         longs = r.sample(LONGS, n)
         args = []
         for i in range(n):
-            kind = r.choice(kinds) if kinds else r.choice(["flag", "flag", "int", "int", "str", "optint", "dbl", "dbl"] + CONT)
+            kind = r.choice(kinds) if kinds else r.choice(["flag", "flag", "int", "int", "str", "optint", "dbl", "dbl", "level", "level"] + CONT)
             a = new_arg(kind)
             ks = r.random()
             if ks < 0.2:
@@ -70,6 +70,9 @@ class Gen:
                 a["init"] = r.choice([0, -1, 42, 7])
             elif kind == "dbl":
                 a["init"] = r.choice([0, 10, -1, 400])           # quarters: 0, 2.5, -0.25, 100
+            elif kind == "level":
+                a["init"] = r.choice([0, 0, 2])
+                a["mix"] = r.random() < 0.3
             elif kind == "str":
                 a["init"] = T(r.choice(["", "dflt", "x"]))
             elif kind == "optint":
@@ -103,6 +106,10 @@ class Gen:
         # a pre-filled optional/container destination already "has a value" for the mandatory check (undocumented): not generated
         if k != "flag" and r.random() < 0.15 and not ((is_cont(k) or k == "optint") and a["init"] not in ([], [0, 0, 0])):
             a["mand"] = True
+        if k == "level":
+            if r.random() < 0.4:
+                a["checks"].append({"k": "upper", "a": a["init"] + r.choice([2, 3, 5]), "b": 0, "vals": []})
+            return
         if is_int_kind(k) and k != "bits8" and r.random() < 0.4:
             c = r.choice(["lower", "upper", "range", "values"])
             if c == "lower":
@@ -323,6 +330,22 @@ class Gen:
             a = args[i - 1]
             if a["kind"] == "flag":
                 uses.append([i, []])
+                continue
+            if a["kind"] == "level":
+                up = min([c["a"] for c in a["checks"] if c["k"] == "upper"] + [10**6])
+                if a["mix"] and r.random() < 0.5:
+                    v = r.randint(a["init"], min(up - 1, a["init"] + 3)) if up - 1 >= a["init"] else None
+                    if v is None: return None
+                    uses.append([i, [str(v)]])
+                    for _ in range(r.randint(0, max(0, min(2, up - 1 - v)))):
+                        uses.append([i, []])
+                elif r.random() < 0.5:
+                    n = r.randint(1, max(1, min(3, up - 1 - a["init"])))
+                    if a["init"] + n >= up: return None
+                    uses += [[i, []] for _ in range(n)]
+                else:
+                    if up - 1 < 0: return None
+                    uses.append([i, [str(r.randint(0, min(up - 1, 9)))]])
                 continue
             if is_cont(a["kind"]):
                 lo, hi = 1, 4
